@@ -21,4 +21,22 @@ def forwardFact (s : Proof) (id : IId) (r : Nat) (p : List IId) (th : Option Seq
   | .ok s1 => setLine s1 id r p th
   | .error e => .error e
 
+/- Number of open gaps (lines with rule `sorry`) whose stated sequent is `t`, subproofs included. -/
+mutual
+def cntItem (t : Option Seq) : Item → Nat
+  | .mk _ r _ th _ sub => (if r = ruleSorry ∧ th = t then 1 else 0) + cntList t sub
+def cntList (t : Option Seq) : List Item → Nat
+  | [] => 0
+  | i :: is => cntItem t i + cntList t is
+end
+
+/- Number of lines, subproofs included. -/
+mutual
+def sizeItem : Item → Nat
+  | .mk _ _ _ _ _ sub => 1 + sizeList sub
+def sizeList : List Item → Nat
+  | [] => 0
+  | i :: is => sizeItem i + sizeList is
+end
+
 end Holpy.C14
